@@ -1,7 +1,11 @@
 package main
 
 import (
+	"testing/fstest"
+
 	"fmt"
+	"github.com/wokdav/gopki/generator/db"
+	"github.com/wokdav/gopki/generator/db/filesystem"
 	"os"
 	"strings"
 
@@ -13,4 +17,18 @@ func debugParse(name, text string) {
 	if err != nil {
 		fmt.Fprintf(os.Stderr, "PARSE %s: %v\n%s\n", name, err, text)
 	}
+}
+
+// a plain default run over an in-memory directory (used to obtain real artifacts)
+func runPlain(m fstest.MapFS) error {
+	d := filesystem.NewFilesystemDatabase(filesystem.NewMapFs(m))
+	if err := d.Open(); err != nil {
+		return err
+	}
+	plan, err := db.PlanBulkUpdate(d, db.UpdateMissing|db.UpdateChanged)
+	if err != nil {
+		return err
+	}
+	_, err = db.BulkUpdate(d, plan)
+	return err
 }
